@@ -1,8 +1,10 @@
 #!/usr/bin/env python3
-"""file_seed.py <id>: copies the confirmed seeded changes of /tmp/mut-out/<id> into /verif/seeded/<id>-<n>/"""
+"""file_seed.py <id> [<out base> [<number offset>]]: copies the confirmed seeded changes of <out base>/<id> (default /tmp/mut-out) into /verif/seeded/<id>-<n + offset>/"""
 import sys, os, shutil, json, re
 pid = sys.argv[1]
-src = '/tmp/mut-out/' + pid
+base = sys.argv[2] if len(sys.argv) > 2 else '/tmp/mut-out'
+off = int(sys.argv[3]) if len(sys.argv) > 3 else 0
+src = os.path.join(base, pid)
 notes = open(os.path.join(src, 'notes.md')).read() if os.path.exists(os.path.join(src, 'notes.md')) else ''
 for n in (1, 2, 3):
     d = os.path.join(src, 'change%d.diff' % n)
@@ -13,7 +15,7 @@ for n in (1, 2, 3):
     ok = conf.get('demo_without_change_rc') == '0' and conf.get('demo_with_change_rc') not in (None, '0') and conf.get('suite_with_change_rc') == '0'
     if not ok:
         print('NOT confirmed:', pid, n, conf); continue
-    out = '/verif/seeded/%s-%d' % (pid, n)
+    out = '/verif/seeded/%s-%d' % (pid, n + off)
     os.makedirs(out, exist_ok=True)
     shutil.copy(d, os.path.join(out, 'patch.diff'))
     shutil.copy(os.path.join(src, 'demo%d.rs' % n), os.path.join(out, 'demo.rs'))
